@@ -11,8 +11,8 @@ VARIABLES nnA, deny, mode, kind, chosen
 vars == <<nnA, deny, mode, kind, chosen>>
 
 Fams == {"Q.a", "Q.b", "A.x", "A.l", "I.z", "A.u", "T1.p", "T2.q"}
-MLeaf(key, fam, nn) == [key |-> key, fam |-> fam, name |-> key, nn |-> <<nn>>, leaf |-> TRUE, obj |-> [v |-> <<>>]]
-MObj(key, fam, nn, obj) == [key |-> key, fam |-> fam, name |-> key, nn |-> nn, leaf |-> FALSE, obj |-> obj]
+MLeaf(key, fam, nn) == [key |-> key, fam |-> fam, rc |-> fam, name |-> key, nn |-> <<nn>>, leaf |-> TRUE, obj |-> [v |-> <<>>]]
+MObj(key, fam, nn, obj) == [key |-> key, fam |-> fam, rc |-> fam, name |-> key, nn |-> nn, leaf |-> FALSE, obj |-> obj]
 Shape(n) ==
   [v |-> << [types |-> <<"Query">>, fields |-> <<
        MObj("a", "Q.a", <<n[1]>>, [v |-> << [types |-> <<"A">>, fields |-> <<
@@ -58,7 +58,7 @@ Sent == {i \in DOMAIN Reqs : SentByModel(Reqs[i], deny, mode)}
 
 Inv_NoDeniedValue == NoDeniedValue(Pos, deny)
 Inv_NullPropagates == NullConsistent(Pos)
-Inv_DenialReported == DenialReported(Pos, BasePos, deny, Errs)
+Inv_DenialReported == DenialReported(Pos, BasePos, deny, Errs, TRUE, FALSE)
 Inv_PrefetchRule == \A i \in Sent : ReqAllowed(Reqs[i], deny, mode)
 \* the model skips nothing the rule does not ask for
 Inv_SkipsOnlyDenied == \A i \in DOMAIN Reqs : i \notin Sent => \E j \in DOMAIN Reqs[i].roots : Reqs[i].roots[j] \in deny
